@@ -110,6 +110,13 @@ Generator LOOPS (a `for x in xs:` state machine that yields values and carries v
 `access.get_regions` / `join_regions`) are read by the companion module `harness/looptrans.py`; its reading rules
 (yield = append, continue, `is None` tests as a match on an option, numpy vector primitives as the one-line list
 functions of `lean/CnvVerif/Model/PyPrims.lean`) are stated at the top of that file and belong to the trusted base too.
+* a power of two numeric LITERALS (`2 ** -5`, after a name imported from params.py has been replaced by its literal)
+  is the exact value of the double Python computes for it;
+* `not <test>` where the test is resolved by `given` / `absent` folds to `True` / `False`; in `a and b` / `a or b` an
+  operand resolved to a constant is dropped (neutral) or ends the reading of the later operands (absorbing, and
+  nothing before it: Python's short-circuit evaluation);
+* `argument_of(fn, callee, param)` (bottom of this file) reads "the value `fn` passes to `callee` as `param`": the
+  function is cut at its final `return callee(...)` and returns that argument instead (positional or keyword).
 """
 from __future__ import annotations
 
@@ -126,6 +133,17 @@ def _rat(x):
     if f.denominator == 1:
         return f"({f.numerator} : Rat)" if f.numerator >= 0 else f"(({f.numerator}) : Rat)"
     return f"(({f.numerator} : Rat) / {f.denominator})"
+
+
+def _num_literal(e):
+    """the value of a (signed) numeric literal, else None"""
+    if isinstance(e, ast.Constant) and isinstance(e.value, (int, float)) and not isinstance(e.value, bool):
+        return e.value
+    if isinstance(e, ast.UnaryOp) and isinstance(e.op, (ast.USub, ast.UAdd)):
+        v = _num_literal(e.operand)
+        if v is not None:
+            return -v if isinstance(e.op, ast.USub) else v
+    return None
 
 
 class Fn:
@@ -199,6 +217,14 @@ class Fn:
                     return self.param(e.right.id + "_pow2")
                 if isinstance(e.right, ast.Constant) and isinstance(e.right.value, int) and e.right.value >= 0:
                     return f"({self.expr(e.left, env)} ^ {e.right.value})"
+                lit = _num_literal(e.left), _num_literal(e.right)
+                if lit[0] is not None and lit[1] is not None:
+                    try:
+                        v = float(lit[0]) ** lit[1]
+                    except (OverflowError, ZeroDivisionError) as ex:
+                        raise Untranslatable("power " + ast.unparse(e)) from ex
+                    if isinstance(v, float) and v == v and v not in (float("inf"), float("-inf")):
+                        return _rat(v)
                 raise Untranslatable("power " + ast.unparse(e))
             a, b = self.expr(e.left, env), self.expr(e.right, env)
             if isinstance(e.op, ast.Add):
@@ -336,9 +362,29 @@ class Fn:
             return f"({b} = true)" if isinstance(e.ops[0], ast.In) else f"({b} = false)"
         if isinstance(e, ast.BoolOp):
             op = " ∧ " if isinstance(e.op, ast.And) else " ∨ "
-            return "(" + op.join(self.cond(v, env) for v in e.values) + ")"
+            # Python evaluates the operands left to right and stops at the first that decides the result: an operand
+            # resolved to the absorbing constant ends the translation there, a neutral one is dropped
+            absorbing, neutral = ("False", "True") if isinstance(e.op, ast.And) else ("True", "False")
+            parts = []
+            for v in e.values:
+                c = self.cond(v, env)
+                if c == absorbing:
+                    if not parts:
+                        return absorbing
+                    parts.append(c)
+                    break
+                if c != neutral:
+                    parts.append(c)
+            if not parts:
+                return neutral
+            if len(parts) == 1:
+                return parts[0]
+            return "(" + op.join(parts) + ")"
         if isinstance(e, ast.UnaryOp) and isinstance(e.op, ast.Not):
-            return f"(¬ {self.cond(e.operand, env)})"
+            inner = self.cond(e.operand, env)
+            if inner in ("True", "False"):
+                return "False" if inner == "True" else "True"
+            return f"(¬ {inner})"
         if isinstance(e, ast.Compare):
             parts = []
             left = e.left
@@ -1606,3 +1652,47 @@ def guard_condition(fn, exc_name, rename_attr_of=("args",)):
             tr.params = []
             return tr.cond(A().visit(copy.deepcopy(s.test)), env), list(tr.params)
     raise Untranslatable(f"no `if ...: raise {exc_name}` guard")
+
+
+def argument_of(fn: ast.FunctionDef, callee: ast.FunctionDef, param: str) -> ast.FunctionDef:
+    """`fn` ends in `return callee(...)`: a copy of `fn` that returns the argument bound to `callee`'s
+    parameter `param` instead (the value `fn` hands on under that name)."""
+    import copy
+    new = copy.deepcopy(fn)
+    last = new.body[-1]
+    if not (isinstance(last, ast.Return) and isinstance(last.value, ast.Call)
+            and isinstance(last.value.func, ast.Name) and last.value.func.id == callee.name):
+        raise Untranslatable(f"{fn.name} does not end in `return {callee.name}(...)`")
+    call = last.value
+    names = [a.arg for a in callee.args.args]
+    if param not in names or any(isinstance(a, ast.Starred) for a in call.args) or any(k.arg is None for k in call.keywords):
+        raise Untranslatable(f"cannot resolve parameter `{param}` of {callee.name}")
+    k = names.index(param)
+    if k < len(call.args):
+        val = call.args[k]
+    else:
+        kws = [kw.value for kw in call.keywords if kw.arg == param]
+        if len(kws) != 1:
+            raise Untranslatable(f"{fn.name} passes no `{param}` to {callee.name}")
+        val = kws[0]
+    new.body[-1] = ast.copy_location(ast.Return(value=val), last)
+    return ast.fix_missing_locations(new)
+
+
+def inline_imported_params(tree, repo_params_consts):
+    """names imported with `from .params import X` are read as the literal `X` names in params.py"""
+    imported = set()
+    for n in ast.walk(tree):
+        if isinstance(n, ast.ImportFrom) and (n.module or "").split(".")[-1] == "params":
+            imported |= {a.asname or a.name for a in n.names}
+
+    class T(ast.NodeTransformer):
+        def visit_Name(self, node):
+            if isinstance(node.ctx, ast.Load) and node.id in imported and \
+                    isinstance(repo_params_consts.get(node.id), (int, float)) and \
+                    not isinstance(repo_params_consts.get(node.id), bool):
+                v = repo_params_consts[node.id]
+                new = ast.Constant(value=abs(v)) if v >= 0 else ast.UnaryOp(op=ast.USub(), operand=ast.Constant(value=-v))
+                return ast.copy_location(new, node)
+            return node
+    return ast.fix_missing_locations(T().visit(tree))
